@@ -316,13 +316,15 @@ func (x *Exec) applyContract(bc *blockCtx, in ssa.Instruction, f *ssa.Function, 
 				x.lockedCallCheck(bc, in, ce, k, name)
 				if as := x.assignLoc(ce, k); as != nil {
 					// a single location: only that cell becomes unknown
-					h := x.getHeap(bc.st, as.key)
-					if as.idx == nil {
-						bc.st.heaps[as.key] = x.sto(h, as.ref, x.b.Fresh("assigned_"+shortFn(name), as.elemSort))
-					} else {
-						arrSort := fmt.Sprintf("(Array Int %s)", as.elemSort)
-						inner := x.sel(h, as.ref, arrSort)
-						bc.st.heaps[as.key] = x.sto(h, as.ref, x.sto(inner, as.idx, x.b.Fresh("assigned_"+shortFn(name), as.elemSort)))
+					for ; as != nil; as = as.next {
+						h := x.getHeap(bc.st, as.key)
+						if as.idx == nil {
+							bc.st.heaps[as.key] = x.sto(h, as.ref, x.b.Fresh("assigned_"+shortFn(name), as.elemSort))
+						} else {
+							arrSort := fmt.Sprintf("(Array Int %s)", as.elemSort)
+							inner := x.sel(h, as.ref, arrSort)
+							bc.st.heaps[as.key] = x.sto(h, as.ref, x.sto(inner, as.idx, x.b.Fresh("assigned_"+shortFn(name), as.elemSort)))
+						}
 					}
 					continue
 				}
@@ -361,11 +363,57 @@ func (x *Exec) applyContract(bc *blockCtx, in ssa.Instruction, f *ssa.Function, 
 			only = x.rootC.UseEnsures[fnKey(f.Origin())]
 		}
 	}
+	var insts map[string][]Expr
+	if x.rootC != nil && x.rootC.Instances != nil && x.spec == 0 {
+		insts = x.rootC.Instances[name]
+		if insts == nil {
+			insts = x.rootC.Instances[fc.Name]
+		}
+		if insts == nil && f.Origin() != nil {
+			insts = x.rootC.Instances[fnKey(f.Origin())]
+		}
+	}
 	for _, e := range fc.Ensures {
+		if ie := insts[e.Label]; len(ie) > 0 {
+			// ground instances of a quantified postcondition, at terms of the function
+			// under contract (evaluated in the state right after the call)
+			if call, ok := e.E.(*ECall); ok && exprString(call.Fun) == "forall" && len(call.Args) == 3 {
+				if id, ok := call.Args[0].(*EIdent); ok {
+					if ts, ok := call.Args[1].(*EString); ok {
+						t := x.prog.resolveType(x.pkgOf(post), ts.V)
+						rce := &CEnv{x: x, st: bc.st, old: x.rootEntry, vars: x.rootVars, lets: x.rootLets, pkg: fnPkg(x.root), guard: bc.reach, fc: x.rootC}
+						for _, ex := range ie {
+							v := x.coerce(x.eval(rce, ex), t)
+							x.assume(bc.reach, x.evalBool(post.withBound(id.Name, v), &Clause{E: call.Args[2], Text: e.Text, File: e.File, Line: e.Line}))
+						}
+					}
+				}
+			}
+		}
 		if only != nil && !only[e.Label] {
-			continue
+			// not in the default selection: still assumed (and tagged) when some
+			// postcondition of the function under contract asks for it by name
+			wanted := false
+			if x.rootC != nil {
+				for _, m := range x.rootC.UseEnsuresAt {
+					for cn, labs := range m {
+						if (cn == name || cn == fc.Name || (f.Origin() != nil && cn == fnKey(f.Origin()))) && labs[e.Label] {
+							wanted = true
+						}
+					}
+				}
+			}
+			if !wanted {
+				continue
+			}
 		}
 		x.assume(bc.reach, x.evalBool(post, e))
+		if e.Label != "" && x.rootC != nil && (x.rootC.UseEnsuresAt != nil || x.rootC.UseEnsures != nil) && len(x.hyps) > 0 {
+			if x.hypTag == nil {
+				x.hypTag = map[int][2]string{}
+			}
+			x.hypTag[x.hyps[len(x.hyps)-1].ID] = [2]string{fc.Name, e.Label}
+		}
 	}
 	if only != nil {
 		x.note("only the postconditions " + strings.Join(sortedKeys(only), ", ") + " of " + name + " are used here (useensures)")
@@ -1184,9 +1232,26 @@ type assignTarget struct {
 	ref      *smt.Term
 	idx      *smt.Term // nil for pointer cells
 	elemSort string
+	next     *assignTarget // further cells named by the same token (map contents + map length)
 }
 
 func (x *Exec) assignLoc(ce *CEnv, tok string) *assignTarget {
+	if strings.HasPrefix(tok, "map(") && strings.HasSuffix(tok, ")") {
+		// map(e): the contents (and length) of the one map e refers to at entry
+		e, err := ParseExpr(tok[4 : len(tok)-1])
+		if err != nil {
+			cfail("assigns: %v", err)
+		}
+		v := x.eval(ce, e)
+		mt, ok := v.Typ.Underlying().(*types.Map)
+		if !ok {
+			cfail("assigns: %s is not a map", tok)
+		}
+		key, inner, _ := x.mapHeap(mt)
+		x.heapSorts["HMlen"] = "(Array Int Int)"
+		return &assignTarget{key: key, ref: x.asTerm(v), elemSort: inner,
+			next: &assignTarget{key: "HMlen", ref: x.asTerm(v), elemSort: "Int"}}
+	}
 	if strings.HasPrefix(tok, "*") {
 		e, err := ParseExpr(tok[1:])
 		if err != nil {
